@@ -50,6 +50,38 @@ pub fn pause() {
 
 /// Wait until `cond()`; gives up (returns false) only if the global progress counter has not moved
 /// for `stall` while waiting ("progress watchdog"): a merely slow machine keeps the counter moving.
+/// A reusable barrier that releases its waiters as simultaneously as the machine allows: waiters
+/// spin (and yield after a while, or always under Miri) instead of sleeping on a condvar, so the
+/// operations that follow start within nanoseconds of each other. Same interface as `std::sync::Barrier`.
+pub struct SpinGate {
+    n: usize,
+    count: std::sync::atomic::AtomicUsize,
+    generation: std::sync::atomic::AtomicUsize,
+}
+
+impl SpinGate {
+    pub fn new(n: usize) -> Self {
+        SpinGate { n, count: Default::default(), generation: Default::default() }
+    }
+    pub fn wait(&self) {
+        let g = self.generation.load(Ordering::SeqCst);
+        if self.count.fetch_add(1, Ordering::SeqCst) + 1 == self.n {
+            self.count.store(0, Ordering::SeqCst);
+            self.generation.fetch_add(1, Ordering::SeqCst);
+            return;
+        }
+        let mut spins = 0u32;
+        while self.generation.load(Ordering::SeqCst) == g {
+            spins += 1;
+            if spins > 2000 || is_miri() {
+                std::thread::yield_now();
+            } else {
+                std::hint::spin_loop();
+            }
+        }
+    }
+}
+
 pub fn progress_wait(mut cond: impl FnMut() -> bool, stall: Duration) -> bool {
     let mut last = progress_now();
     let mut last_change = Instant::now();
